@@ -159,6 +159,8 @@ def lemma_matrix_capacity(ctx, rule):
             (atom, coef), = p.co.items()
             if coef == 1 and atom[0] == "call" and atom[1].endswith("::len"):
                 lens[S.strip_refs(atom[2][0])] = p.c
+            elif coef == 1 and atom[0] == "len":
+                lens[S.strip_refs(atom[1])] = p.c
     if not (lens.get(("arg", 2)) is not None and lens.get(("arg", 3)) is not None):
         ctx.fail(rule, "L1", where(pb, bi), "the required size is not max(len(coefs1)+k, len(coefs2)+k): %s" % S.show(need, pb), kind="S")
         return None
@@ -425,6 +427,34 @@ def _distance_facts(ctx, b, bi, t, args, facts, l1, acc_ok):
                 if not shrinks:
                     facts.append(ge(Lin({("len", k): 1}), Lin({("len", B.norm_atom(src)): 1}),
                                     "L-ext: %s was extended with one element per element of %s" % (bufs[k], S.show(src, b)[:40])))
+    # L-ext, loop form: `for x in X { buf.push(f(x)) }` with the push on every trip round a loop that has finished
+    # before the site
+    for (ebi, et, rk, m) in U.receiver_events(ctx, b):
+        k = B.norm_atom(rk)
+        if k not in bufs or m != "push":
+            continue
+        h = cfg.inner_header(ebi)
+        if h is None or not cfg.dominates(h, bi) or cfg.in_natural_loop(bi, h) if hasattr(cfg, "in_natural_loop") else False:
+            continue
+        for nbi, nt in b.calls():
+            if not (nt.get("cn") or "").endswith("Iterator::next") or cfg.inner_header(nbi) != h:
+                continue
+            src, stages = U.chain(sy.operand(nt["args"][0]))
+            if not stages or not all(s_[0] in ("iter", "into_iter") for s_ in stages):
+                continue
+            tg = nt.get("target")
+            sw = b.blocks[tg]["term"] if tg is not None else None
+            if sw is None or sw["k"] != "switch":
+                continue
+            some_t = [x for v, x in sw["targets"] if v == 1]
+            if not some_t or cfg.path_exists(some_t[0], nbi, avoid=[ebi]) and some_t[0] != ebi:
+                continue
+            shrinks = [x for (x, _, rk2, m2) in U.receiver_events(ctx, b)
+                       if B.norm_atom(rk2) == k and m2 in ("clear", "truncate", "pop", "drain", "remove", "retain", "resize", "dedup", "swap_remove")
+                       and cfg.path_exists(ebi, x) and cfg.path_exists(x, bi)]
+            if not shrinks:
+                facts.append(ge(Lin({("len", k): 1}), Lin({("len", B.norm_atom(src)): 1}),
+                                "L-ext: %s received one push per element of %s" % (bufs[k], S.show(src, b)[:40])))
     # L-acc
     if acc_ok:
         for w in range(2, b.arg_count + 1):
